@@ -553,6 +553,8 @@ def mk_cond(c, a, b):
         c, a, b = c[2], b, a
     if c[0] == 'bin' and c[1] == '==' and c[3] == ('lit', False):
         c, a, b = c[2], b, a
+    if c[0] == 'lit' and isinstance(c[1], (bool, int)):
+        return a if c[1] else b          # a constant selector (helper instantiated with a literal flag)
     return ('cond', c, a, b)
 
 
@@ -664,6 +666,8 @@ def subst(t, mapping):
         else:
             out.append(x)
     out = tuple(out)
+    if out and out[0] == 'cond' and len(out) == 4 and out[1][0] == 'lit':
+        out = mk_cond(out[1], out[2], out[3])
     return mapping.get(out, out)
 
 
